@@ -11,15 +11,18 @@
 (* any moment (the deadline is re-armed by traffic; that only restricts when).*)
 (* The server side is serveSession (Relay.tla) with datagram streams.         *)
 (*                                                                            *)
-(* Modelled as the code is.  DEVIATION StaleDelete: both deletions are BY KEY *)
-(* (delete(streams, addr)), not by identity; a reader goroutine that has left *)
-(* its loop but not yet taken the table lock removes the entry of a NEWER     *)
-(* stream of the same source (opened after the loop's own failed Write had    *)
-(* already cleaned up): that stream stays open and keeps relaying replies but *)
-(* is unreachable; the next datagram opens yet another one; when the orphan   *)
-(* times out its reader deletes the then-current entry again, and so on.      *)
-(* NoOrphan / AtMostOne are therefore REFUTED for the code as it is and hold  *)
-(* with Dev = {"DeleteByIdentity"} (what a repair would do).                  *)
+(* Modelled as the code is (since /repo 5369de6, defect D22 repaired): both   *)
+(* clean-up paths remove the table entry only if it still points to THEIR     *)
+(* stream.  Dev = {"DeleteByKey"} is the code before the repair               *)
+(* (delete(streams, addr) whatever the entry holds): a reader goroutine that  *)
+(* has left its loop but not yet taken the table lock removes the entry of a  *)
+(* NEWER stream of the same source (opened after the loop's own failed Write  *)
+(* had already cleaned up); that stream stays open and keeps relaying replies *)
+(* but is unreachable, the next datagram opens yet another one, and when the  *)
+(* orphan times out its reader deletes the then-current entry again.  TLC     *)
+(* refutes NoOrphan in 11 steps (MRecv MCheck MLookup RLeave PeerClose MWrite *)
+(* MRecv MCheck MLookup RExit) and AtMostOne in 15 with that flag; the        *)
+(* negative configuration keeps it as witness.                                *)
 (* DEVIATION DatagramLostOnDeadStream: a datagram that finds the entry of a   *)
 (* dead stream is consumed by the failed Write; only the next one reopens.    *)
 EXTENDS Integers, Sequences, FiniteSets, TLC
@@ -109,9 +112,10 @@ MWrite ==
   /\ IF StreamLive(ms)
        THEN /\ up' = [up EXCEPT ![ms] = Append(@, <<ma, sent[ma]>>)]
             /\ UNCHANGED <<tab, sstate, sopen, lost>>
-       ELSE \* DatagramLostOnDeadStream; delete BY KEY (the entry is ms or already gone: only this goroutine inserts)
+       ELSE \* DatagramLostOnDeadStream; the entry is forgotten if it is still this stream's
             LET c == CloseStream(ms, sstate, sopen) IN
-            /\ tab' = [tab EXCEPT ![ma] = 0] /\ sstate' = c[1] /\ sopen' = c[2] /\ lost' = lost + 1 /\ UNCHANGED up
+            /\ tab' = IF "DeleteByKey" \in Dev \/ tab[ma] = ms THEN [tab EXCEPT ![ma] = 0] ELSE tab
+            /\ sstate' = c[1] /\ sopen' = c[2] /\ lost' = lost + 1 /\ UNCHANGED up
   /\ mpc' = "recv"
   /\ UNCHANGED <<ma, ms, cur, nsess, needs, ssrc, ssess, nstream, rpc, sent, dn, replies, recvd>>
 
@@ -132,8 +136,8 @@ RExit(k) ==
   /\ LET c == CloseStream(k, sstate, sopen) IN
        /\ sstate' = c[1] /\ sopen' = c[2]
        /\ tab' = IF "NoDelete" \in Dev THEN tab
-                 ELSE IF "DeleteByIdentity" \in Dev /\ tab[ssrc[k]] # k THEN tab
-                 ELSE [tab EXCEPT ![ssrc[k]] = 0]                  \* DEVIATION StaleDelete: by key
+                 ELSE IF "DeleteByKey" \in Dev \/ tab[ssrc[k]] = k THEN [tab EXCEPT ![ssrc[k]] = 0]
+                 ELSE tab                                           \* the address already belongs to a newer stream
   /\ rpc' = [rpc EXCEPT ![k] = "done"]
   /\ UNCHANGED <<mpc, ma, ms, cur, nsess, needs, ssrc, ssess, nstream, sent, up, dn, replies, recvd, lost>>
 
@@ -172,7 +176,7 @@ OrderInv ==
   /\ \A a \in Src, k \in K : Increasing(SelectSeq(recvd[a], LAMBDA p : p[1] = k), Second)
 \* an entry points to a stream of that source whose reader has not finished
 TableSound == \A a \in Src : tab[a] # 0 => ssrc[tab[a]] = a /\ rpc[tab[a]] \in {"read", "exit"}
-\* REFUTED as the code is (StaleDelete): a stream that is still being relayed is reachable from the table
+\* a stream that is still being relayed is reachable from the table (refuted with Dev = {"DeleteByKey"}: defect D22)
 NoOrphan == \A k \in K : (rpc[k] = "read" /\ sstate[k] = "open") => tab[ssrc[k]] = k
 AtMostOne == \A a \in Src : Cardinality({k \in K : ssrc[k] = a /\ rpc[k] = "read" /\ sstate[k] = "open"}) <= 1
 \* whatever happens, nothing outlives its timeout: when the loop waits for a datagram and no reader can move, every stream
